@@ -213,6 +213,30 @@ def run_c01(o, tier, rng, prep):
     if tier == "quick":
         rng.shuffle(pos)
         pos = pos[:1200]
+    # positions reached through the engine's own generator: chains from game prefixes and corner captures
+    chain_cases = []
+    for g in games:
+        n = len(g.moves)
+        for k in range(1, n, 5 if tier == "quick" else 1):
+            j = max(0, k - rng.choice([1, 2, 3]))
+            chain_cases.append("gen\tA\t%s\t%s" % (g.fens[j], " ".join(g.moves[j:k])))
+    cc = gens.corner_capture_chains(rng)
+    cc_legal = set(f for f, _, _ in gens.filter_legal([f for f, _ in cc]))
+    for fen, chain in cc:
+        if fen in cc_legal:
+            chain_cases.append("gen\tA\t%s\t%s" % (fen, " ".join(chain)))
+    # after the capture, every reply of the other side and then the position after it
+    follow = []
+    pre = V.run_sharded([V.DRIVER, V.ZDUMP], [c for c in chain_cases if c.split("\t")[2] in cc_legal])
+    for c, l in zip([c for c in chain_cases if c.split("\t")[2] in cc_legal], [x for x in pre if x.startswith("S ")]):
+        mv = [x.split("=")[0] for x in l.split("moves=")[-1].split(",") if re.match(r"^[a-h][1-8][a-h][1-8][qrbn]?=", x)]
+        rng.shuffle(mv)
+        for m in mv[:4]:
+            follow.append(c + " " + m)
+    chain_cases += follow
+    res = V.run_cases(chain_cases)
+    mm, sm = V.compare(res, model_filter=model_moves_only, spec_filter=moves_only)
+    report(o, "positions reached through chains of generated successors (game prefixes, corner captures and the replies)", res, mm, sm, nontrivial=moves_nontrivial)
     for name, fens in (("regression corpus", corpus), ("castling/en-passant/promotion geometry", geo), ("positions of random legal games", pos)):
         res = V.run_cases(gen_cases_from_positions(fens))
         # C01 is about the move set: descriptors as sorted multisets (positions and keys are C02 / C05)
@@ -236,6 +260,10 @@ def run_c02(o, tier, rng, prep):
         rng.shuffle(cases)
         cases = cases[:1000]
     cases += gen_cases_from_positions(geo)
+    cc = gens.corner_capture_chains(rng)
+    cc_legal = set(f for f, _, _ in gens.filter_legal([f for f, _ in cc]))
+    cases += ["gen\tA\t%s\t%s" % (f, " ".join(ch)) for f, ch in cc if f in cc_legal]
+    cases += ["gen\tA\t%s\t" % f for f, ch in cc if f in cc_legal]
     corpus = [l.rstrip("\n") for l in open(os.path.join(V.VERIF, "corpus", "c02_regress.txt")) if l.strip() and not l.startswith("#")]
     cases = corpus + cases
     res = V.run_cases(cases)
